@@ -2,6 +2,7 @@
 from __future__ import annotations
 
 import functools
+import json
 
 from hypothesis import strategies as st
 
@@ -202,7 +203,7 @@ class StmtGen:
             return self.col(keys)
         if c == 4:
             v = self.value()
-            return ["vw", v] if v[0] in ("raw", "pyv") else v
+            return ["vw", v] if v[0] in ("raw", "pyv", "enum") else v
         if c == 5:
             return [self.d(st.sampled_from(("add", "sub", "mul"))), self.term(keys, depth - 1), self.d(st.booleans()) and self.value() or self.term(keys, depth - 1)]
         if c == 6:
@@ -278,7 +279,7 @@ class StmtGen:
         for i in range(n):
             if not tk:
                 v = self.value()
-                t = (["vw", v] if v[0] in ("raw", "pyv") else v) if i else ["star", None]
+                t = (["vw", v] if v[0] in ("raw", "pyv", "enum") else v) if i else ["star", None]
                 if not i:
                     sel.append(t)
                     continue
@@ -296,14 +297,16 @@ class StmtGen:
             steps.append(["where", [self.crit(tk, 2)]])
         if grouped:
             first = sel[0]
+            if '"col"' not in json.dumps(first):
+                first = sel[0] = self.col(tk)  # sel is the very list held by the select step
             gb = first[1] if first[0] == "as" else first
             steps.append(["groupby", [first if first[0] == "as" and self.d(st.booleans()) else gb]])
             if self.flag("having", 0.5):
                 steps.append(["having", [[self.d(st.sampled_from(("gt", "lt"))), self.agg(tk), self.value()]]])
         if tk and self.flag("orderby", 0.4):
             ob = self.d(st.sampled_from(sel)) if self.d(st.booleans()) else self.col(tk)
-            if ob[0] in ("star",):
-                ob = self.col(tk)
+            if ob[0] in ("star",) or '"col"' not in json.dumps(ob):
+                ob = self.col(tk)  # a bare literal in ORDER BY is a column position in SQL, not a value
             steps.append(["orderby", [ob], self.d(st.sampled_from([{}, {"order": ["enum", "Order", "desc"]}]))])
         if self.flag("limit", 0.3):
             steps.append(["limit", [["raw", 900000 + self.mk.next()]]])
